@@ -369,10 +369,12 @@ def ip_dump(fam, args):
             return dict(lines=["EXC:%s" % type(e).__name__], pairs=[], detail="raised", violated=True)
         lines = out.getvalue().splitlines()
         pairs = []
+        why = []
         for l in lines:
             x, y = l.split("\t")
             pairs.append([int(ipaddress.ip_address(x)), int(ipaddress.ip_address(y))])
-        why = []
+            if ipaddress.ip_address(x).version != family or ipaddress.ip_address(y).version != family:
+                why.append("line %r names an address of the other family" % l)
         for x, y in ((a, ra), (b, rb)):
             if [x, y] not in pairs:
                 why.append("request %d -> %d not listed" % (x, y))
@@ -665,6 +667,8 @@ def secret_history(fam, args):
     _reseed_passlib()
     mode, inputs, part, extract = args["mode"], args["inputs"], args["part"], args.get("extract")
     lookup = {}
+    for k in range(args.get("prior") or 0):
+        fam.sir._anonymize_value("earlierSecret%d" % k, lookup, fam.words.default_reserved_words, "S")
     rx = fam.sir.generate_default_sensitive_item_regexes()
     outs = []
     try:
@@ -1124,9 +1128,9 @@ def ip_network_contract(fam, args):
         (should, img), misses = _with_md5(fam, args, run)
     except Exception as e:
         return dict(violated=True, observed="EXC:%s" % type(e).__name__, detail=repr(e))
-    n = ipaddress.ip_network(cfg["networks"][0])
-    inside = ipaddress.IPv4Address(a) in n
-    bad = (should != (not (inside or _is_mask_spec(a)))) or ((ipaddress.IPv4Address(img) in n) != inside)
+    nets = [ipaddress.ip_network(x) for x in cfg["networks"]]
+    inside = any(ipaddress.IPv4Address(a) in n for n in nets)
+    bad = (should != (not (inside or _is_mask_spec(a)))) or any((ipaddress.IPv4Address(img) in n) != (ipaddress.IPv4Address(a) in n) for n in nets)
     return dict(violated=bad, observed=[should, img], detail="a=%s inside=%r should=%r image=%s" % (ipaddress.IPv4Address(a), inside, should, ipaddress.IPv4Address(img)), misses=misses)
 
 
